@@ -346,9 +346,18 @@ func compareDebugPair(sOff, sOn *mwServer, cfg Cfg, suite []Req, stride int, whe
 		case !isPreflightReq(q):
 			return &Violation{Class: "debug-changes-non-preflight", Key: q.String(), Detail: fmt.Sprintf("%s: cfg=%s req=%s debug off: %s; debug on: %s", where, cfg, q, a, b)}
 		case isOK(a.Status): // succeeds with debug off
-			_, offHasACAH := fpGet(a.Headers, hACAH)
-			_, onHasACAH := fpGet(b.Headers, hACAH)
-			if a.Status != b.Status || a.Body != b.Body || a.Handler != b.Handler || stripAC(a.Headers, hACAH) != stripAC(b.Headers, hACAH) || offHasACAH != onHasACAH {
+			// Access-Control-Allow-Headers may differ in VALUE (debug mode lists all
+			// allowed names instead of echoing the requested ones), but it must still
+			// be present iff it was, and must still list every name it listed before.
+			offList, offHasACAH, _ := extractList(a.Headers, hACAH)
+			onList, onHasACAH, _ := extractList(b.Headers, hACAH)
+			covered := true
+			for _, n := range offList {
+				if !containsFold(onList, n) {
+					covered = false
+				}
+			}
+			if a.Status != b.Status || a.Body != b.Body || a.Handler != b.Handler || stripAC(a.Headers, hACAH) != stripAC(b.Headers, hACAH) || offHasACAH != onHasACAH || !covered {
 				return &Violation{Class: "debug-changes-successful-preflight", Key: q.String(), Detail: fmt.Sprintf("%s: cfg=%s req=%s debug off: %s; debug on: %s", where, cfg, q, a, b)}
 			}
 		default:
